@@ -1,0 +1,98 @@
+//go:build verif
+// +build verif
+
+package main
+
+// Verification hook (build tag "verif", test-only, adds no code to the broker): lets an external
+// harness run the built-in authenticator on generated configurations.  Cases are read from the JSON
+// file named by VERIF_AUTH_CASES, observations are written to VERIF_AUTH_OUT.
+
+import (
+	"encoding/json"
+	"fmt"
+	"io/ioutil"
+	"os"
+	"path/filepath"
+	"testing"
+
+	"github.com/VolantMQ/vlapi/vlauth"
+
+	"github.com/VolantMQ/volantmq/configuration"
+)
+
+type verifAuthQuery struct {
+	User     string `json:"user"`
+	Password string `json:"password"`
+	Topic    string `json:"topic"`
+	Write    bool   `json:"write"`
+}
+
+type verifAuthCase struct {
+	Config    authConfig       `json:"config"`
+	UsersFile string           `json:"usersFileContent"`
+	Queries   []verifAuthQuery `json:"queries"`
+}
+
+type verifAuthObs struct {
+	LoadErr  string   `json:"loadErr,omitempty"`
+	Password []string `json:"password"`
+	ACL      []string `json:"acl"`
+}
+
+func verdict(f func() error) (res string) {
+	defer func() {
+		if r := recover(); r != nil {
+			res = fmt.Sprintf("panic: %v", r)
+		}
+	}()
+	if f() == vlauth.StatusAllow {
+		return "allow"
+	}
+	return "deny"
+}
+
+func TestVerifBuiltinAuth(t *testing.T) {
+	in, out := os.Getenv("VERIF_AUTH_CASES"), os.Getenv("VERIF_AUTH_OUT")
+	if in == "" || out == "" {
+		t.Skip("VERIF_AUTH_CASES / VERIF_AUTH_OUT not set")
+	}
+	raw, err := ioutil.ReadFile(in)
+	if err != nil {
+		t.Fatal(err)
+	}
+	var cases []verifAuthCase
+	if err = json.Unmarshal(raw, &cases); err != nil {
+		t.Fatal(err)
+	}
+	if logger == nil {
+		logger = configuration.GetHumanLogger()
+	}
+	dir, _ := ioutil.TempDir("", "verifauth")
+	defer os.RemoveAll(dir)
+	obs := make([]verifAuthObs, len(cases))
+	for i, c := range cases {
+		cfg := c.Config
+		if c.UsersFile != "" {
+			cfg.UsersFile = filepath.Join(dir, fmt.Sprintf("users%d.yaml", i))
+			_ = ioutil.WriteFile(cfg.UsersFile, []byte(c.UsersFile), 0o600)
+		}
+		a, e := newSimpleAuth(cfg)
+		if e != nil {
+			obs[i].LoadErr = e.Error()
+			continue
+		}
+		for _, q := range c.Queries {
+			q := q
+			obs[i].Password = append(obs[i].Password, verdict(func() error { return a.Password("cid", q.User, q.Password) }))
+			access := vlauth.AccessRead
+			if q.Write {
+				access = vlauth.AccessWrite
+			}
+			obs[i].ACL = append(obs[i].ACL, verdict(func() error { return a.ACL("cid", q.User, q.Topic, access) }))
+		}
+	}
+	res, _ := json.Marshal(obs)
+	if err = ioutil.WriteFile(out, res, 0o644); err != nil {
+		t.Fatal(err)
+	}
+}
